@@ -421,21 +421,12 @@ impl Property for C06 {
                         allowed.push(p.obs.stdout.len());
                     }
                     ctx.stats.probe("diagnostic placement checked");
-                    for a in &allowed {
-                        if !at.contains(a) {
-                            return viol(
-                                "C06.stdout-placement",
-                                format!("no diagnostic between the rows of the values before a malformed region (row bytes {a}) and the next row; diagnostics sit at row-byte offsets {at:?}"),
-                            );
-                        }
-                    }
-                    for x in &at {
-                        if !sampled && !allowed.contains(x) {
-                            return viol(
-                                "C06.stdout-placement",
-                                format!("a diagnostic at row-byte offset {x} does not correspond to any malformed region (regions at {allowed:?})"),
-                            );
-                        }
+                    // where the diagnostics sit among the rows is not promised by the property
+                    // (a writer may batch rows): observed, not judged
+                    if allowed.iter().all(|a| at.contains(a)) && (sampled || at.iter().all(|x| allowed.contains(x))) {
+                        ctx.stats.probe("diagnostics interleaved with the rows exactly at their regions");
+                    } else {
+                        ctx.stats.probe("diagnostics not interleaved with the rows at their regions");
                     }
                 }
             }
